@@ -5,11 +5,16 @@ import TmVerif.Proofs.GraphTarjan
 /-!
 C26 — Graph algorithms return correct components, closures and paths (property theorems only).
 
-Vocabulary (Proofs/GraphBasic.lean, Proofs/GraphScc.lean): `succs g v` = `g[v]`; `Edge g a b` = `b ∈ g[a]`;
-`Wf g` = every successor is a vertex (decidable, `wfB`; exactly the graphs on which the Go code does
-not panic, which the harness observes on a malformed stream); `Relation.TransGen (Edge g) a b` = a
-non-empty path `a →⁺ b`; `Reach` = `→*`; `SC` = mutual reachability; `IsSccOrder g comps` = `comps` are
-exactly the strongly connected components, once each, in reverse topological order.
+Models (Model/Graph.lean): hand mirrors `transpose`, `Matrix.closure` / `Matrix.graph`, `longestPath`,
+`tarjan` of util/graph/{transpose,matrix,path,tarjan}.go, and the validator `checkScc`.
+Vocabulary (Proofs/GraphBasic.lean, GraphScc.lean, GraphPath.lean): `succs g v` = `g[v]`;
+`Edge g a b` = `b ∈ g[a]`; `Wf g` = every successor is a vertex (decidable, `wfB`; exactly the graphs on
+which the Go code does not panic — the harness observes the panic on a malformed stream);
+`Relation.TransGen (Edge g) a b` = a non-empty path `a →⁺ b`; `Reach` = `→*`; `SC` = mutual
+reachability; `IsSccOrder g comps` = `comps` are exactly the strongly connected components, once each,
+in reverse topological order; `IsPath g p` = `p` is a walk of `g`.
+Every theorem is for ALL graphs of the model; the only hypotheses are `Wf g` and, for Tarjan, the
+`2 ≤ |g|` of the property statement (`C26_tarjan_small` shows it is needed).
 -/
 namespace TmVerif.Graph
 
